@@ -142,6 +142,31 @@ def optList : Option Json → List Json
   | some (.arr l) => l
   | _ => []
 
+/-- `attrs` is absent or an object, and of the shape `attrsShape` for the type -/
+def attrsOkT (ty : String) (a : Option Json) : Bool := attrsOkB a && attrsShape ty a
+
+theorem attrsOkT_B {ty : String} {a : Option Json} (h : attrsOkT ty a = true) : attrsOkB a = true := by
+  simp only [attrsOkT, Bool.and_eq_true] at h; exact h.1
+
+theorem attrsOkT_none (ty : String) : attrsOkT ty none = true := rfl
+
+/-- for types other than link / image / block_code the shape does not depend on the type -/
+theorem attrsOkT_congr (ty ty' : String) (a : Option Json)
+    (h1 : ty ≠ "link" ∧ ty ≠ "image" ∧ ty ≠ "block_code") (h2 : ty' ≠ "link" ∧ ty' ≠ "image" ∧ ty' ≠ "block_code") :
+    attrsOkT ty' a = attrsOkT ty a := by
+  obtain ⟨a1, a2, a3⟩ := h1
+  obtain ⟨b1, b2, b3⟩ := h2
+  have e1 : (ty == "link") = false := by simpa using a1
+  have e2 : (ty == "image") = false := by simpa using a2
+  have e3 : (ty == "block_code") = false := by simpa using a3
+  have f1 : (ty' == "link") = false := by simpa using b1
+  have f2 : (ty' == "image") = false := by simpa using b2
+  have f3 : (ty' == "block_code") = false := by simpa using b3
+  unfold attrsOkT attrsShape
+  cases a with
+  | none => rfl
+  | some v => cases v <;> simp only [e1, e2, e3, f1, f2, f3]
+
 /-- the check of one block-pass token as a function of its five grammar fields; `rec` checks a list of children -/
 def preView (rec : List Json → TokCtx → Nat → Bool) (tyJ attrsJ rawJ chJ textJ : Option Json)
     (ctx : TokCtx) (depth mx : Nat) : Bool :=
@@ -150,7 +175,7 @@ def preView (rec : List Json → TokCtx → Nat → Bool) (tyJ attrsJ rawJ chJ t
     let ty := String.ofList tyS
     let attrs := attrsJ.getD (.obj [])
     decide (depth ≤ mx) &&
-    attrsOkB attrsJ &&
+    attrsOkT ty attrsJ &&
     (if ty == "paragraph" || ty == "block_text" then
        isBlockCtx ctx && optStr textJ && !optHas rawJ && !optHas chJ
      else if ty == "heading" then
